@@ -1585,9 +1585,6 @@ theorem fixSignal_unknown (t : CodeTable) (fuel : Nat) (st : SysSt) (name : Stri
 
 /-! ### signals: one binding -/
 
-/-- reverse complement of a string of codes -/
-def wc (t : CodeTable) (s : List Char) : List Char := s.reverse.map (complC t)
-
 theorem wcStr_eq_wc {t : CodeTable} (hl : t.lawful = true) (s : List Char) (h : ∀ c ∈ s, t.isCode c = true) :
     t.wcStr s = some (wc t s) := wcStr_eq hl s h
 
@@ -1631,5 +1628,224 @@ theorem fix_port {t : CodeTable} (hl : t.lawful = true) {cs : St} (hw : wfB t cs
   cases parity
   · rfl
   · exact specFix_star hl hw he str hc
+
+/-! ### signals through nested systems -/
+
+/-- the loop body of `fix_signal` as the model has it -/
+def sigStep (t : CodeTable) (fuel : Nat) (str : List Char) (acc : SysSt) (e : SigEntry) : Except Fix.Err SysSt :=
+  match acc with
+  | .mk p n pf tm sg l comps i o =>
+    match comps.lookup e.comp with
+    | none => Except.error Err.key
+    | some sub =>
+      let upd (sub' : Inst) : SysSt := .mk p n pf tm sg l (comps.map (fun (c, x) => if c == e.comp then (c, sub') else (c, x))) i o
+      match e.port, sub with
+      | .seq it _, .comp cs =>
+        (fixItem t (cs.seqs.length + 1) cs it.name e.wc str).map (fun cs' => upd (.comp cs'))
+      | .sig sn, .sys ss =>
+        let str' := if e.wc then t.wcStr str else some str
+        match str' with
+        | none => Except.error Err.key
+        | some f => match fixSignal t fuel ss sn f with
+          | .error x => Except.error x
+          | .ok none => Except.error Err.key
+          | .ok (some ss') => Except.ok (upd (.sys ss'))
+      | _, _ => Except.error Err.key
+
+theorem fixSignal_succ (t : CodeTable) (fuel : Nat) (st : SysSt) (name : String) (str : List Char) :
+    fixSignal t (fuel + 1) st name str =
+      match st.signals.lookup name with
+      | none => .ok none
+      | some entries => (entries.foldlM (sigStep t fuel str) st).map some := rfl
+
+
+def CompsWF (t : CodeTable) (fuel : Nat) (st : SysSt) : Prop := ∀ p ∈ st.components, wfInst t fuel p.2 = true
+
+theorem wfInst_comp (t : CodeTable) (fuel : Nat) (s : St) : wfInst t fuel (.comp s) = wfB t s := by
+  cases fuel <;> rfl
+
+theorem wfInst_sys_succ (t : CodeTable) (fuel : Nat) (st : SysSt) :
+    wfInst t (fuel + 1) (.sys st) = true ↔ CompsWF t fuel st := by
+  unfold CompsWF
+  simp [wfInst, List.all_eq_true]
+
+theorem lookup_mem' {β} {l : List (String × β)} {k : String} {v : β} (h : l.lookup k = some v) : (k, v) ∈ l := by
+  induction l with
+  | nil => simp [List.lookup] at h
+  | cons a r ih =>
+    obtain ⟨k', v'⟩ := a
+    simp only [List.lookup] at h
+    split at h
+    · rename_i hk
+      have := eq_of_beq hk
+      simp only [Option.some.injEq] at h
+      subst h; subst this; exact List.mem_cons_self
+    · exact List.mem_cons_of_mem _ (ih h)
+
+theorem updComp_components (st : SysSt) (cn : String) (sub' : Inst) :
+    (updComp st cn sub').components = st.components.map (fun (c, x) => if c == cn then (c, sub') else (c, x)) := by
+  cases st; rfl
+
+theorem CompsWF_updComp {t : CodeTable} {fuel : Nat} {st : SysSt} (h : CompsWF t fuel st) (cn : String) {sub' : Inst}
+    (hs : wfInst t fuel sub' = true) : CompsWF t fuel (updComp st cn sub') := by
+  intro p hp
+  rw [updComp_components] at hp
+  obtain ⟨⟨c, x⟩, hq, rfl⟩ := List.mem_map.1 hp
+  simp only
+  split
+  · exact hs
+  · exact h (c, x) hq
+
+theorem sigStep_eq {t : CodeTable} (hl : t.lawful = true) (fuel : Nat) (str : List Char)
+    (hc : ∀ c ∈ str, t.isCode c = true) (acc : SysSt) (hinv : CompsWF t fuel acc) (e : SigEntry) :
+    sigStep t fuel str acc e = sigStepSpec t fuel str acc e := by
+  obtain ⟨p, n, pf, tm, sg, l, comps, i, o⟩ := acc
+  unfold sigStep sigStepSpec
+  simp only [SysSt.components]
+  cases hlk : comps.lookup e.comp with
+  | none => rfl
+  | some sub =>
+    have hmem := lookup_mem' hlk
+    have hwf := hinv _ hmem
+    simp only
+    cases hp : e.port with
+    | seq it bs =>
+      cases sub with
+      | comp cs =>
+        simp only
+        rw [wfInst_comp] at hwf
+        cases hf : cs.findSeq it.name with
+        | none =>
+          rw [fixItem_succ, hf]
+          rfl
+        | some e' =>
+          rw [FixSpec.fix_port hl hwf hf e.wc str hc]
+          rfl
+      | sys ss => rfl
+    | sig sn =>
+      cases sub with
+      | comp cs => rfl
+      | sys ss =>
+        simp only
+        cases hwc : e.wc
+        · rfl
+        · simp only [if_true]
+          rw [wcStr_eq_wc hl str hc]
+          rfl
+
+theorem sigStepSpec_wf {t : CodeTable} (hl : t.lawful = true) (fuel : Nat)
+    (IH : ∀ (st : SysSt) (name : String) (str : List Char) (st' : SysSt), (∀ c ∈ str, t.isCode c = true) →
+      wfInst t fuel (.sys st) = true → fixSignal t fuel st name str = .ok (some st') → wfInst t fuel (.sys st') = true)
+    (str : List Char) (hc : ∀ c ∈ str, t.isCode c = true) (acc acc' : SysSt) (hinv : CompsWF t fuel acc)
+    (e : SigEntry) (h : sigStepSpec t fuel str acc e = .ok acc') : CompsWF t fuel acc' := by
+  unfold sigStepSpec at h
+  simp only at h
+  have hc' : ∀ c ∈ (if e.wc then wc t str else str), t.isCode c = true := by
+    split
+    · exact wc_codes hl hc
+    · exact hc
+  cases hlk : acc.components.lookup e.comp with
+  | none => rw [hlk] at h; cases h
+  | some sub =>
+    rw [hlk] at h
+    have hwf := hinv _ (lookup_mem' hlk)
+    simp only at h
+    cases hp : e.port with
+    | seq it bs =>
+      rw [hp] at h
+      cases sub with
+      | comp cs =>
+        simp only at h
+        rw [wfInst_comp] at hwf
+        split at h
+        · cases hx : specFix t cs (posOfView cs it.name false) (if e.wc then wc t str else str) with
+          | error err => rw [hx] at h; cases h
+          | ok cs' =>
+            rw [hx] at h
+            simp only [Except.map, Except.ok.injEq] at h
+            subst h
+            apply CompsWF_updComp hinv
+            rw [wfInst_comp]
+            exact specFold_wf hl hwf (specFix_ok hx).2
+        · cases h
+      | sys ss => cases h
+    | sig sn =>
+      rw [hp] at h
+      cases sub with
+      | comp cs => cases h
+      | sys ss =>
+        simp only at h
+        cases hx : fixSignal t fuel ss sn (if e.wc then wc t str else str) with
+        | error err => rw [hx] at h; cases h
+        | ok r =>
+          rw [hx] at h
+          cases r with
+          | none => cases h
+          | some ss' =>
+            simp only [Except.ok.injEq] at h
+            subst h
+            exact CompsWF_updComp hinv _ (IH ss sn _ ss' hc' hwf hx)
+
+theorem fold_sig {t : CodeTable} (hl : t.lawful = true) (fuel : Nat)
+    (IH : ∀ (st : SysSt) (name : String) (str : List Char) (st' : SysSt), (∀ c ∈ str, t.isCode c = true) →
+      wfInst t fuel (.sys st) = true → fixSignal t fuel st name str = .ok (some st') → wfInst t fuel (.sys st') = true)
+    (str : List Char) (hc : ∀ c ∈ str, t.isCode c = true) :
+    ∀ (entries : List SigEntry) (acc : SysSt), CompsWF t fuel acc →
+      entries.foldlM (sigStep t fuel str) acc = entries.foldlM (sigStepSpec t fuel str) acc ∧
+      ∀ acc', entries.foldlM (sigStepSpec t fuel str) acc = .ok acc' → CompsWF t fuel acc' := by
+  intro entries
+  induction entries with
+  | nil =>
+    intro acc hinv
+    refine ⟨rfl, fun acc' h => ?_⟩
+    simp only [List.foldlM_nil] at h
+    cases h
+    exact hinv
+  | cons e r ih =>
+    intro acc hinv
+    rw [foldlM_cons_except, foldlM_cons_except, sigStep_eq hl fuel str hc acc hinv e]
+    cases hx : sigStepSpec t fuel str acc e with
+    | error err => exact ⟨rfl, fun acc' h => by cases h⟩
+    | ok acc1 => exact ih acc1 (sigStepSpec_wf hl fuel IH str hc acc acc1 hinv e hx)
+
+/-- `fix_signal` keeps every component of the tree well-formed -/
+theorem fixSignal_wf {t : CodeTable} (hl : t.lawful = true) : ∀ (fuel : Nat) (st : SysSt) (name : String)
+    (str : List Char) (st' : SysSt), (∀ c ∈ str, t.isCode c = true) → wfInst t fuel (.sys st) = true →
+    fixSignal t fuel st name str = .ok (some st') → wfInst t fuel (.sys st') = true := by
+  intro fuel
+  induction fuel with
+  | zero => intro st name str st' _ _ h; cases h
+  | succ fuel ih =>
+    intro st name str st' hc hw h
+    rw [fixSignal_succ] at h
+    rw [wfInst_sys_succ] at hw ⊢
+    cases hlk : st.signals.lookup name with
+    | none => rw [hlk] at h; cases h
+    | some entries =>
+      rw [hlk] at h
+      simp only at h
+      obtain ⟨heq, hwf⟩ := fold_sig hl fuel ih str hc entries st hw
+      rw [heq] at h
+      cases hx : entries.foldlM (sigStepSpec t fuel str) st with
+      | error err => rw [hx] at h; cases h
+      | ok acc' =>
+        rw [hx] at h
+        simp only [Except.map, Except.ok.injEq, Option.some.injEq] at h
+        subst h
+        exact hwf acc' hx
+
+/-- `fix_signal` against its specification -/
+theorem fixSignal_spec {t : CodeTable} (hl : t.lawful = true) (fuel : Nat) (st : SysSt) (name : String)
+    (str : List Char) (hc : ∀ c ∈ str, t.isCode c = true) (hw : wfInst t (fuel + 1) (.sys st) = true) :
+    fixSignal t (fuel + 1) st name str =
+      match st.signals.lookup name with
+      | none => .ok none
+      | some entries => (entries.foldlM (sigStepSpec t fuel str) st).map some := by
+  rw [fixSignal_succ]
+  cases hlk : st.signals.lookup name with
+  | none => rfl
+  | some entries =>
+    simp only
+    rw [(fold_sig hl fuel (fixSignal_wf hl fuel) str hc entries st ((wfInst_sys_succ t fuel st).1 hw)).1]
 
 end Pepper.FixSpec
